@@ -265,6 +265,57 @@ def ob_exact(et, name):
     return Verdict(DISCHARGED, backend="exact arithmetic on the real forms and operators", sub=n)
 
 
+def ob_evaluate_frame():
+    """Field.Evaluate_e / Evaluate_n leave the field as they found it: on every normal-exit path the evaluation-mode flag is reset to False
+    after the user function ran (otherwise the next Integrate_e differentiates stored dof values instead of the active shape function)."""
+    from vt import eff
+    n = 0
+    fn = extract.get(FD, "Field.Evaluate_e")
+    for p in eff.paths(fn):
+        n += 1
+        idx_call = [i for i, e in enumerate(p) if e[0] == "call" and e[1] == "function"]
+        sets = [(i, e) for i, e in enumerate(p) if e[0] == "store" and e[1] == "self._Field__is_currently_evaluated"]
+        if not idx_call:
+            continue
+        after = [i for i, e in sets if i > idx_call[-1]]
+        if not after:
+            raise Refuted("Field.Evaluate_e has a normal-exit path that does not reset the evaluation-mode flag after evaluating the function",
+                          cex=dict(path=[f"{e[0]}:{e[1]}" for e in p if e[0] != "branch"]), signature="evaluate:frame", replay=_replay_evaluate())
+    # the value stored last must be False
+    import ast as _ast
+    vals = [(_ast.unparse(nd.value), nd.lineno) for nd in _ast.walk(fn.node) if isinstance(nd, _ast.Assign) and _ast.unparse(nd.targets[0]) == "self.__is_currently_evaluated"]
+    if not vals or sorted(vals, key=lambda t: t[1])[-1][0] != "False":
+        raise Refuted("Field.Evaluate_e does not end with the evaluation-mode flag lowered", signature="evaluate:frame", replay=_replay_evaluate())
+    return Verdict(DISCHARGED, backend="AST path analysis", sub=n)
+
+
+def _replay_evaluate():
+    try:
+        from EasyFEA.FEM import Field, BiLinearForm, Sym_Grad
+        mesh = _geometry("QUAD4")
+        g = mesh.groupElem
+        fld = Field(g, 2)
+        form = BiLinearForm(lambda u, v: Sym_Grad(u).ddot(Sym_Grad(v)))
+        K0 = np.asarray(form.Integrate_e(fld))
+        fld.Evaluate_e(lambda u: Sym_Grad(u), np.arange(g.Ncoords * 2, dtype=float), returnMeanValues=False)
+        fld.Evaluate_e(lambda u: Sym_Grad(u), np.arange(g.Ncoords * 2, dtype=float), returnMeanValues=True)
+        fld.Evaluate_e(lambda u: Sym_Grad(u), np.arange(g.Ncoords * 2, dtype=float), returnMeanValues=False)
+        K1 = np.asarray(form.Integrate_e(fld))
+        err = float(np.abs(K1 - K0).max() / np.abs(K0).max())
+        return dict(confirmed=err > 1e-12, rel_change_of_K_e_after_Evaluate_e=err)
+    except Exception as e:
+        return dict(confirmed=True, raised=repr(e)[:300])
+
+
+def ob_evaluate_sequence(et):
+    """run-time: Integrate_e gives the same element matrices before and after post-processing calls on the same field."""
+    r = _replay_evaluate()
+    if r.get("confirmed"):
+        raise Refuted(f"Integrate_e changes after Field.Evaluate_e on the same field: {r}", cex=dict(sequence=["Integrate_e", "Evaluate_e(mean=False)", "Evaluate_e(mean=True)", "Evaluate_e(mean=False)", "Integrate_e"]),
+                      signature="evaluate:sequence", replay=r)
+    return Verdict(DISCHARGED, backend="native run", detail=str(r))
+
+
 def _patch_bc(mesh, et, pre):
     """all boundary nodes of the star patch: a non-linear displacement / temperature field is prescribed there."""
     interior = set(fem.star_interior(et, pre))
@@ -355,6 +406,9 @@ def build(tier, seed):
                               ("elastic", "TETRA4", "elliptic")):
         obs.append(Ob(f"C13.simu.{physics}.{et}.{algo}", ob_simu, (physics, et, algo), "X", ("EasyFEA/Simulations/_weakforms.py::WeakForms.Construct_local_matrix_system",),
                       bound="star patch, 1-2 steps, floats", clause="WeakForms simulation == dedicated simulation (1e-10)", timeout=300))
+    obs.append(Ob("C13.evaluate.frame", ob_evaluate_frame, (), "E", (f"{FD}::Field.Evaluate_e",), clause="Evaluate_e restores the field's mode on every normal exit"))
+    obs.append(Ob("C13.evaluate.sequence", ob_evaluate_sequence, ("QUAD4",), "X", (f"{FD}::Field.Evaluate_e", f"{FP}::BiLinearForm.Integrate_e"), bound="one 5-call sequence on one field",
+                  clause="post-processing a field does not change what forms integrate afterwards", timeout=120))
     obs.append(Ob("canary.assemble.index", ob_assemble_index, ("bilinear", True), "P", expect=REFUTED))
     functions = {q: extract.get(FP, q).describe() for q in ("BiLinearForm.Integrate_e", "BiLinearForm.Assemble", "LinearForm.Integrate_e", "LinearForm.Assemble")}
     functions["Field.__call__"] = extract.get(FD, "Field.__call__").describe()
